@@ -79,6 +79,8 @@ fn configs(tier: Tier) -> Vec<Cfg> {
     k11.nranges = Some(3);
     k11.min_cpr = Some(8.0);
     v.push(k11);
+    // a chunk index capped at 20 entries: eight one-atom sessions stay far below it (family F12)
+    v.push(base("K12-indexcap20"));
     if tier == Tier::Thorough {
         let mut k8 = base("K8-chunks4-defrag-n3");
         k8.max_xorb_chunks = Some(4);
@@ -127,6 +129,7 @@ fn plan(tier: Tier) -> Vec<(Cfg, &'static str)> {
             for k in ["K1", "K4"] {
                 p.push((by(k), "F11"));
             }
+            p.push((by("K12"), "F12"));
             for k in ["K11", "K10"] {
                 p.push((by(k), "F9c"));
             }
@@ -135,6 +138,10 @@ fn plan(tier: Tier) -> Vec<(Cfg, &'static str)> {
             p.push((by("K0"), "F7"));
             for c in &cs {
                 if c.target == 65536 {
+                    continue;
+                }
+                if c.name.starts_with("K12") {
+                    p.push((c.clone(), "F12"));
                     continue;
                 }
                 for f in ["F1", "F2", "F3", "F4", "F5", "F6", "F6c", "FS", "F8", "F9", "F9b", "F9c", "F10", "F11"] {
